@@ -3,7 +3,10 @@ package tape
 
 import (
 	"crypto/verifrand"
+	"runtime"
 	"sync"
+	"sync/atomic"
+	"syscall"
 )
 
 // Draw records one read from the entropy source.
@@ -65,7 +68,7 @@ func (t *Tape) Rewind() {
 }
 
 // Mark returns the number of draws so far (to slice Draws per call).
-func (t *Tape) Mark() int { t.mu.Lock(); defer t.mu.Unlock(); return len(t.Draws) }
+func (t *Tape) Mark() int   { t.mu.Lock(); defer t.mu.Unlock(); return len(t.Draws) }
 func (t *Tape) Offset() int { t.mu.Lock(); defer t.mu.Unlock(); return t.off }
 
 // Bytes returns what the tape serves at [off, off+n) (by Src; scripted answers are not reflected).
@@ -89,3 +92,92 @@ func (t *Tape) Install() { verifrand.Set(t) }
 
 // Uninstall restores the system entropy source.
 func Uninstall() { verifrand.Set(nil) }
+
+// ---- per-thread multiplexing ----------------------------------------------------------------
+// The std hook is process-global. Mux dispatches each draw to the tape bound to the calling
+// goroutine, so that several workers can each own a deterministic tape. A bound goroutine is locked
+// to its OS thread and identified by its thread id (one cheap syscall per draw). Draws from threads
+// without a bound tape are served from a fallback generator (they are never part of an oracle).
+
+type slot struct {
+	tid  int
+	tape *Tape
+}
+
+type mux struct {
+	slots [1024]atomic.Pointer[slot]
+	mu    sync.Mutex
+	fb    uint64
+}
+
+var theMux = &mux{fb: 0x9e3779b97f4a7c15}
+
+func (m *mux) find(tid int) *Tape {
+	for i := 0; i < len(m.slots); i++ {
+		s := m.slots[(tid+i)%len(m.slots)].Load()
+		if s == nil {
+			return nil
+		}
+		if s.tid == tid {
+			return s.tape
+		}
+	}
+	return nil
+}
+
+func (m *mux) Read(p []byte) (int, error) {
+	if t := m.find(syscall.Gettid()); t != nil {
+		return t.Read(p)
+	}
+	m.mu.Lock()
+	for i := range p {
+		m.fb ^= m.fb << 13
+		m.fb ^= m.fb >> 7
+		m.fb ^= m.fb << 17
+		p[i] = byte(m.fb >> 24)
+	}
+	m.mu.Unlock()
+	return len(p), nil
+}
+
+var muxOnce sync.Once
+
+// InstallMux installs the dispatcher (idempotent).
+func InstallMux() { muxOnce.Do(func() { verifrand.Set(theMux) }) }
+
+// Bind locks the calling goroutine to its OS thread and makes t its entropy source. Unbind undoes it.
+// (Slots are never freed, only re-pointed: a thread id keeps its slot; tape nil = unbound.)
+func Bind(t *Tape) {
+	InstallMux()
+	runtime.LockOSThread()
+	tid := syscall.Gettid()
+	theMux.mu.Lock()
+	defer theMux.mu.Unlock()
+	for i := 0; i < len(theMux.slots); i++ {
+		sp := &theMux.slots[(tid+i)%len(theMux.slots)]
+		s := sp.Load()
+		if s == nil || s.tid == tid {
+			sp.Store(&slot{tid, t})
+			return
+		}
+	}
+	panic("tape: no free slot")
+}
+
+func Unbind() {
+	tid := syscall.Gettid()
+	theMux.mu.Lock()
+	for i := 0; i < len(theMux.slots); i++ {
+		sp := &theMux.slots[(tid+i)%len(theMux.slots)]
+		s := sp.Load()
+		if s == nil {
+			break
+		}
+		if s.tid == tid {
+			sp.Store(&slot{tid, nil})
+			break
+		}
+	}
+	theMux.mu.Unlock()
+	runtime.UnlockOSThread()
+}
